@@ -136,6 +136,49 @@ func c14Extras(cc *CheckCtx) {
 			}
 		}
 		cc.audit("savefile-skip-over-long", okSkip, "the name=value write is only reached when len(val) > maxValueLen is false, for the very string that is written", "")
+		// no binding is left out for any other reason: every branch of SaveGlobals is one of the known ones (loop
+		// conditions, the constant-name test, function / named function, the size limit, write errors)
+		{
+			var unknown []string
+			nIf := 0
+			for _, b := range sg.Blocks {
+				for _, ins := range b.Instrs {
+					iff, ok := ins.(*ssa.If)
+					if !ok {
+						continue
+					}
+					nIf++
+					known := false
+					switch c := iff.Cond.(type) {
+					case *ssa.BinOp:
+						_, yNil := c.Y.(*ssa.Const)
+						switch c.Op.String() {
+						case "!=", "==":
+							known = yNil // against nil / a constant (outer scope, function name, error, type tag)
+						case "<":
+							known = true // index loop over the sorted keys
+						case ">":
+							if prm, isParam := c.X.(*ssa.Parameter); isParam && prm.Name() == "maxValueLen" {
+								known = true
+							}
+							if prm, isParam := c.Y.(*ssa.Parameter); isParam && prm.Name() == "maxValueLen" {
+								known = true
+							}
+						}
+					case *ssa.Extract:
+						_, known = c.Tuple.(*ssa.Next) // range over the store
+					case *ssa.Call:
+						if callee := staticCallee(&c.Call); callee != nil && callee.Name() == "isConstantAndExtraIdentifier" {
+							known = true
+						}
+					}
+					if !known {
+						unknown = append(unknown, iff.Cond.String()+" at "+p.posOf(iff))
+					}
+				}
+			}
+			cc.audit("savefile-skips-nothing-else", len(unknown) == 0 && nIf >= 6, fmt.Sprintf("the %d branches of SaveGlobals are loop conditions, the built-in constant test, function / named function, the size limit and write errors: no other condition can leave a binding out; others: %v", nIf, unknown), where)
+		}
 		// sorted keys
 		okSort := false
 		for _, b := range sg.Blocks {
